@@ -403,6 +403,7 @@ def failure_handlers_build_excepted(chk: Check, rule: str = 'ESC-handler-order')
     calls = chk.ctx.calls
     CONTROL = {'Interruption', 'KeyboardInterrupt', 'CancelledError', 'PauseInterruption', 'KillInterruption'}
     n = 0
+    st = prog.view(st)
     for t in [x for x in ast.walk(st.node) if isinstance(x, ast.Try)]:
         if not any(isinstance(c, ast.Call) and last_name(c) == '_run_task' for s_ in t.body for c in ast.walk(s_)):
             continue
